@@ -19,7 +19,7 @@ CONSTANTS
   KTimes <- KT_all
   KConcs <- KC_all
   Wrongs <- W_none
-  CPlans <- Plans_two
+  CPlans <- Plans_t
   TUnits = {"s"}
   KRegs <- KRegs6
   Outs <- Outs_one
